@@ -11,6 +11,7 @@
 -/
 import NdnVerif.C13.LoopSpec
 namespace Ndn.C13
+namespace LU
 
 /-! ## small facts -/
 
@@ -331,4 +332,5 @@ example : ∃ a, runSlots false exSlots false
   rw [hb, he] at h
   exact h
 
+end LU
 end Ndn.C13
